@@ -321,7 +321,9 @@ class SyncInterpreter(BaseInterpreter[TContext, TEvent]):
             logger.warning("🚫 Cannot send event. Interpreter is not running.")
             return
 
-        event_obj = self._prepare_event(event_or_type, **payload)
+        event_obj = self._stamp_completion(
+            self._prepare_event(event_or_type, **payload)
+        )
         self._event_queue.append(event_obj)
         self._process_event_queue()
 
